@@ -129,13 +129,13 @@ func namedKey(t types.Type) string {
 }
 
 // Heap component names.
-func compCell(t types.Type) string  { return "C:" + typeKey(t) }
-func compElem(t types.Type) string  { return "E:" + typeKey(t) }
+func compCell(t types.Type) string                { return "C:" + typeKey(t) }
+func compElem(t types.Type) string                { return "E:" + typeKey(t) }
 func compField(st types.Type, path string) string { return "F:" + namedKey(st) + "." + path }
-func compMapDom(m *types.Map) string { return "MD:" + typeKey(m.Key()) + ":" + typeKey(m.Elem()) }
-func compMapVal(m *types.Map) string { return "MV:" + typeKey(m.Key()) + ":" + typeKey(m.Elem()) }
-func compMapLen(m *types.Map) string { return "ML:" + typeKey(m.Key()) + ":" + typeKey(m.Elem()) }
-func compLock(st types.Type, path string) string { return "LK:" + namedKey(st) + "." + path }
+func compMapDom(m *types.Map) string              { return "MD:" + typeKey(m.Key()) + ":" + typeKey(m.Elem()) }
+func compMapVal(m *types.Map) string              { return "MV:" + typeKey(m.Key()) + ":" + typeKey(m.Elem()) }
+func compMapLen(m *types.Map) string              { return "ML:" + typeKey(m.Key()) + ":" + typeKey(m.Elem()) }
+func compLock(st types.Type, path string) string  { return "LK:" + namedKey(st) + "." + path }
 
 const compAlloc = "alloc"
 
